@@ -1,6 +1,6 @@
 (* C12 — property theorems: explicit limits decide exactly; oversize archive members; size arithmetic
    of ODS repeat expansion.  Statements + exact + Print Assumptions only. *)
-From S2T Require Import C12.Model C12.Proofs C12.Xlsx.
+From S2T Require Import C12.Model C12.Proofs C12.Xlsx C12.Ole.
 Open Scope Z_scope.
 
 (* read_file refuses exactly the files larger than a positive max_file_size; 0 (or less) disables *)
@@ -136,3 +136,25 @@ Example C12_xlsx_nonvacuous :
   /\ widths [(1, 3); (2, 1); (4, 2)] = [3; 1; 0; 2].
 Proof. vm_compute. repeat split; reflexivity. Qed.
 Print Assumptions C12_xlsx_nonvacuous.
+
+(* OLE property sets (util/ole_text._check_property_vectors, repair 1113e56): in an accepted stream every vector
+   property claims at most as many elements as the stream has bytes ... *)
+Theorem C12_ole_accepted_vectors_fit :
+  forall d : list Z, 48 <= Ole.len d -> section_of d + 8 <= Ole.len d -> check_vectors d = true ->
+    forall i ptype count, 0 <= i < Ole.num_props d -> prop_at d i = Some (ptype, count) ->
+      is_vector ptype = true -> count <= Ole.len d.
+Proof. exact accepted_vectors_fit. Qed.
+Print Assumptions C12_ole_accepted_vectors_fit.
+
+(* ... so the element loops olefile runs on it are bounded by (number of properties) x (stream length) *)
+Theorem C12_ole_accepted_work_bounded :
+  forall d : list Z, 48 <= Ole.len d -> section_of d + 8 <= Ole.len d -> check_vectors d = true ->
+    vector_work d <= Z.max (Ole.num_props d) 0 * Ole.len d.
+Proof. exact accepted_work_bounded. Qed.
+Print Assumptions C12_ole_accepted_work_bounded.
+
+(* without the guard the statement is false: 72 bytes cost 2^32 - 1 iterations (the defect that was repaired) *)
+Theorem C12_ole_unguarded_work_refuted :
+  exists d, Ole.len d = 72 /\ vector_work d = 4294967295 /\ check_vectors d = false.
+Proof. exact unguarded_work_refuted. Qed.
+Print Assumptions C12_ole_unguarded_work_refuted.
